@@ -241,12 +241,13 @@ class _SimPath(object):
         return posixpath.join(*a)
 
     def isfile(self, p):
-        return p in self.disk.files
+        return _real_os.fspath(p) in self.disk.files
 
     def isdir(self, p):
-        return p in self.disk.dirs
+        return _real_os.fspath(p) in self.disk.dirs
 
     def exists(self, p):
+        p = _real_os.fspath(p)
         return p in self.disk.files or p in self.disk.dirs
 
 
@@ -260,6 +261,7 @@ class SimOS(object):
         self.path = _SimPath(disk)
 
     def makedirs(self, folder):
+        folder = _real_os.fspath(folder)  # path-like folders are as good as strings
         if folder in self.disk.dirs:
             raise OSError(errno.EEXIST, "File exists", folder)
         self.disk.dirs.add(folder)
@@ -278,6 +280,7 @@ class Seam(object):
 
     def _open(self, path, mode="r"):
         d = self.disk
+        path = _real_os.fspath(path)
         if "b" not in mode:
             raise ValueError("sim disk is binary only")
         if mode.startswith("w"):
@@ -316,6 +319,7 @@ class Seam(object):
                 return _SimPath(seam.disk)
 
             def makedirs(self_, folder):
+                folder = _real_os.fspath(folder)
                 if folder in seam.disk.dirs:
                     raise OSError(errno.EEXIST, "File exists", folder)
                 seam.disk.dirs.add(folder)
